@@ -366,11 +366,27 @@ func TestC18List(t *testing.T) {
 	rapid.Check(t, func(t *rapid.T) {
 		c := &listCase{Replicas: rapid.SampledFrom([]int{0, 1, 2, 3, 5, 7, 10, 11, 12, 15, 23, 101}).Draw(t, "replicas")}
 		k := rapid.IntRange(0, c.Replicas).Draw(t, "pods")
+		if rapid.Bool().Draw(t, "allPodsListed") {
+			k = c.Replicas
+		}
 		ords := make([]int, k)
 		for i := range ords {
 			ords[i] = i
 		}
 		perm := rapid.Permutation(ords).Draw(t, "order")
+		orderKind := "shuffled"
+		switch rapid.IntRange(0, 5).Draw(t, "orderKind") {
+		case 0:
+			// what an API server does: sorted by name, which is not ordinal order from 11 pods on
+			orderKind = "by-name"
+			sort.Slice(perm, func(i, j int) bool { return fmt.Sprint(perm[i]) < fmt.Sprint(perm[j]) })
+		case 1:
+			orderKind = "by-name-reversed"
+			sort.Slice(perm, func(i, j int) bool { return fmt.Sprint(perm[i]) > fmt.Sprint(perm[j]) })
+		case 2:
+			orderKind = "by-ordinal"
+			sort.Ints(perm)
+		}
 		identity := true
 		for i, o := range perm {
 			if i != o {
@@ -386,7 +402,10 @@ func TestC18List(t *testing.T) {
 		c.Rolling = rapid.Bool().Draw(t, "rolling")
 		vs := rec.Filter(runList(c))
 		b, _ := json.Marshal(c)
-		cls := []string{"list"}
+		cls := []string{"list", "list-order/" + orderKind}
+		if orderKind == "by-name" && k >= 11 {
+			cls = append(cls, "list-order/by-name-with-11-or-more-pods")
+		}
 		if c.Rolling && c.Others > 0 {
 			cls = append(cls, "rolling-update-present")
 		}
@@ -411,6 +430,16 @@ func TestReplayC18(t *testing.T) {
 			if json.Unmarshal(r.Case, &c) == nil {
 				if bad := rec.Filter(runScale(c)); len(bad) > 0 {
 					fails = append(fails, r.Note+": "+bad[0].Key)
+				}
+			}
+		case "TestC18Coord":
+			var c coordCase
+			if json.Unmarshal(r.Case, &c) == nil {
+				all, _ := runCoord(&c)
+				for _, v := range rec.Filter(all) {
+					if strings.HasPrefix(v.Key, "C18/") {
+						fails = append(fails, r.Note+": "+v.Key)
+					}
 				}
 			}
 		case "TestC18List":
